@@ -25,10 +25,12 @@ class Ctx:
         self.probe = Proc([common.build_probe("harness_fmt", "fmtprobe")])
         self.mosprobe = Proc([common.build_probe()])
         self.model = Proc([common.build_model("fmt")], timeout=60.0)
+        # the whole Gallina pipeline parse (model/Parser.v) -> project (model/FormatParse.v) -> format
+        self.srcmodel = Proc([common.build_model("fmtsrc")], timeout=120.0)
         self.mos = common.build_mos() if need_mos else None
 
     def stop(self):
-        for p in (self.probe, self.mosprobe, self.model):
+        for p in (self.probe, self.mosprobe, self.model, self.srcmodel):
             p.stop()
 
 
@@ -107,6 +109,12 @@ def check_project(ctx, files, fmt, dist, origin):
             if f.get("joined") != f["formatted"]:
                 chk.tie_break("correspondence:hook", "verif_join_chunks(verif_chunks) differs from format()", replay)
             formatted[name] = f["formatted"]
+            # tie of `format_source` (the Gallina term format o (parse s)): source text in, formatted text out
+            sm = ctx.srcmodel.call({"cmd": "format_source", "fmt": fmt, "text": T(files[name])})
+            if "formatted" not in sm or sm["formatted"] is None or S(sm["formatted"]) != f["formatted"]:
+                chk.tie_break("correspondence:format_source", "format o (parse s) of the model differs from the real parse + format for %s" % name,
+                              dict(replay, model=None if not sm.get("formatted") else S(sm["formatted"]), impl=f["formatted"]))
+            dist["format_source_cases"] = dist.get("format_source_cases", 0) + 1
         else:
             ok = False
             chk.oracle_failure(None, "the formatter panics: %s" % f.get("panic", "")[:200], replay)
